@@ -95,7 +95,10 @@ func GenFields(r *rand.Rand, form string, marker string) string {
 func GenMeta(r *rand.Rand, flags bool) string { return GenMetaX(r, flags, false, false) }
 
 // GenMetaX: noRel suppresses relative expiry (Deleted < 0), noExp every expiry.
-func GenMetaX(r *rand.Rand, flags, noRel, noExp bool) string {
+func GenMetaX(r *rand.Rand, flags, noRel, noExp bool) string { return GenMetaY(r, flags, noRel, noExp, false) }
+
+// GenMetaY: noPast additionally suppresses absolute expiries in the past.
+func GenMetaY(r *rand.Rand, flags, noRel, noExp, noPast bool) string {
 	c, m, e, d := "0", "0", "0", "0"
 	switch r.Intn(12) {
 	case 0:
@@ -128,7 +131,7 @@ func GenMetaX(r *rand.Rand, flags, noRel, noExp bool) string {
 	if (noRel || noExp) && d[0] == '-' {
 		d = "0"
 	}
-	if noExp {
+	if noExp || (noPast && (e == "5" || e == "@-5000")) {
 		e = "0"
 	}
 	s, j := "0", "0"
